@@ -54,13 +54,13 @@ Section Stream.
   Qed.
 
   (* EVERY ENTRY OF THE DICTIONARY IS A CROSS-ITERATION CYCLE OF THE INSTRUCTION STREAM: its latency is the sum of the edge weights
-     along the cycle (added in path order from 0), its dependencies are the cycle's instructions -- as the first object of
+     of the cycle, added from 0 in the order of its (sorted) dependencies list -- a function of that list --, its dependencies are the cycle's instructions -- as the first object of
      self.kernel with that line number -- with the weight of the edge leaving them, sorted by (line, weight); its key is made of
      these lines; its root is the first of them *)
   Theorem dict_entries_are_stream_cycles (k : list line) d key root deps lat :
     lcd_dict (renumber k) = POk d -> In (key, (root, deps, lat)) d ->
     exists i q, i < List.length k /\ spath T (stream_E N dep fwd pidx fd (body N k)) i (i + List.length k) q /\
-      lat = fold_left (nadd N) (map snd q) (n0 N) /\
+      lat = sum_sorted N (cycle_members k q) /\
       key = lcd_key (cycle_members k q) /\
       Forall2 (fun ll rw => node_by_lineno get heap (fst ll) = POk (fst rw) /\ snd rw = snd ll) (cycle_members k q) deps /\
       exists first rest, cycle_members k q = first :: rest /\ node_by_lineno get heap (fst first) = POk root.
@@ -69,8 +69,8 @@ Section Stream.
     destruct (S _ _ Hin) as (it & Hit & Hk & Hv). apply py_sort_rev_In in Hit. apply in_map_iff in Hit. destruct Hit as (e & <- & He).
     destruct (lcd_entries_are_stream_cycles N dep fwd pidx fd k e He) as (i & q & Hi & Hq & ->).
     exists i, q. split; [exact Hi|]. split; [exact Hq|].
-    destruct (item_value_spec get heap _ _ _ _ Hv) as (El & F & R). unfold inj_entry, cycle_entry in *. cbn [fst snd] in *.
-    split; [exact El|]. split; [exact Hk|]. split; [exact F | exact R].
+    destruct (item_value_spec get heap _ _ _ _ Hv) as (El & F & R). unfold inj_entry, cycle_entry, cycle_members_of in *. cbn [fst snd] in *.
+    split; [unfold cycle_members; rewrite sum_sorted_inj; exact El|]. split; [exact Hk|]. split; [exact F | exact R].
   Qed.
 
   (* EVERY CROSS-ITERATION CYCLE OF THE STREAM HAS AN ENTRY under the key made of its (sorted) lines *)
@@ -86,7 +86,7 @@ Section Stream.
     specialize (C _ Hit). apply in_map_iff in C. destruct C as ([k0 v] & Ek & Hin). cbn [fst] in Ek. subst k0.
     exists v. replace (lcd_key (cycle_members k q)) with (lcd_key (snd (inj_entry e))); [exact Hin|].
     apply lcd_key_fst. unfold cycle_members, inj_entry. cbn [snd]. rewrite !map_map.
-    apply pairs_eqb_fst in Hk. unfold cycle_entry in Hk. cbn [snd] in Hk.
+    apply pairs_eqb_fst in Hk. unfold cycle_entry, cycle_members_of in Hk. cbn [snd] in Hk.
     change (fun x : nat * T => fst (inj x)) with (fun x : nat * T => Z.of_nat (fst x)).
     rewrite <- !(map_map fst Z.of_nat). f_equal. symmetry. exact Hk.
   Qed.
